@@ -33,6 +33,7 @@ func checkC05(p *Prog, r *Report) {
 	ruleNOGO(p, r, entries, reach)
 	rulePoolUAR(p, r, "C05")
 	rulePoolOwn(p, r)
+	rulePoolNew(p, r)
 	r.Floor("POOL-OWN", 6)
 	r.Floor("INV", 100)
 	r.Floor("LOCK", 1)
